@@ -5,6 +5,7 @@
 package main
 
 import (
+	"github.com/rulego/streamsql"
 	"bufio"
 	"encoding/hex"
 	"fmt"
@@ -87,6 +88,13 @@ func writeCase(w *bufio.Writer, c Case, obs [][][]string) {
 
 // safeExec runs Exec and converts a panic into an obs line (a panic is an observable).
 func safeExec(p Prop, c Case) (obs [][][]string) {
+	curPreset = ""
+	for _, l := range c.Cfg {
+		if len(l) == 2 && l[0] == "preset" {
+			curPreset = l[1]
+		}
+	}
+	defer func() { curPreset = "" }()
 	defer func() {
 		if r := recover(); r != nil {
 			obs = append(obs, [][]string{{"panic", hx(fmt.Sprint(r))}})
@@ -154,6 +162,7 @@ func main() {
 			rng := rand.New(rand.NewSource(seed*1000003 + int64(i)))
 			c := p.Gen(rng, tier, i)
 			c.Prop, c.Seed, c.Idx = name, seed, i
+			withPreset(&c)
 			// a fatal runtime error (not a panic) kills the process: the runner learns from this marker which case was running
 			fmt.Fprintf(os.Stderr, "@case %d\n", i)
 			writeCase(w, c, safeExec(p, c))
@@ -177,6 +186,7 @@ func main() {
 			rng := rand.New(rand.NewSource(seed*1000003 + int64(i)))
 			c := p.Gen(rng, tier, i)
 			c.Prop, c.Seed, c.Idx = name, seed, i
+			withPreset(&c)
 			if !rc.RaceCase(c) {
 				continue
 			}
@@ -196,6 +206,7 @@ func main() {
 		rng := rand.New(rand.NewSource(seed*1000003 + int64(i)))
 		c := p.Gen(rng, tier, i)
 		c.Prop, c.Seed, c.Idx = name, seed, i
+		withPreset(&c)
 		if os.Args[1] == "printcase" {
 			writeCase(w, c, nil)
 		} else {
@@ -221,3 +232,22 @@ func main() {
 
 // subcommands lets a property register a helper mode of the harness binary (run through os.Executable()).
 var subcommands = map[string]func(w *bufio.Writer, args []string){}
+
+// Performance presets (public options): every fifth generated case creates its Streamsql instances with
+// WithHighPerformance() in front of the options the case sets itself (larger buffers, the expand strategy, more sink
+// workers, monitoring on). No property mentions the preset: the observables must be what they are without it.
+var curPreset string
+
+func withPreset(c *Case) {
+	if c.Idx%5 == 4 {
+		c.Cfg = append(c.Cfg, []string{"preset", "high"})
+		c.Stat = append(c.Stat, "preset-high-performance")
+	}
+}
+
+func presetOpt() streamsql.Option {
+	if curPreset == "high" {
+		return streamsql.WithHighPerformance()
+	}
+	return func(*streamsql.Streamsql) {}
+}
